@@ -2,7 +2,7 @@ from ..enumcheck import enum_check, enum_replay
 
 PROP = "C05"
 HARNESS = "c05_mech"
-RULE = ("case = (ordered list of offered mechanism names over 12 names incl. a garbled one, a wrong-case one and an X- mechanism; "
+RULE = ("case = (ordered list of offered mechanism names over 13 names incl. a truncated one, a known name with a -PLUS suffix, a wrong-case one and an X- mechanism; "
         "disabled set = any subset of {PLAIN, SCRAM-SHA-1, DIGEST-MD5, ANONYMOUS, HT-SHA-256-NONE}; preferred in {none, 8 real names, "
         "1 unknown}; password present/absent; token in {none, HT-SHA-256-NONE, HT-SHA-512-NONE}; protocol in {SASL, SASL2, SASL2 with "
         "FAST feature carrying the HT names, the same with FAST switched off in the client}); offered lists: every subset of size <= P in "
